@@ -137,6 +137,38 @@ def canon_modulo_var_order(text):
     return res
 
 
+K_CONTAINERS = "dump-containers-section-ordered-by-address"
+CONTBLOCK_RE = re.compile(r"(  <containers>\n)(.*?)(  </containers>\n)", re.S)
+CONT_RE = re.compile(r"    <container [^>]*?(?:/>\n|>\n.*?    </container>\n)", re.S)
+
+
+def canon_modulo_container_order(text):
+    """canonical form that also forgets the order of the <container> elements inside <containers> (and nothing else): per <dump>
+    element the text outside that block is canonicalised; every <container>…</container> element is rewritten with the indices
+    its ids got OUTSIDE the block (tokens refer to containers through valueType-containerId) and the elements are sorted"""
+    res = []
+    for sec in sections(text):
+        outer = CONTBLOCK_RE.sub(lambda m: m.group(1) + m.group(3), sec)
+        seen = {}
+
+        def rep(m):
+            if m.group(1) not in IDATTRS:
+                return m.group(0)
+            if m.group(2) not in seen:
+                seen[m.group(2)] = len(seen)
+            return '%s="#%d"' % (m.group(1), seen[m.group(2)])
+        c_outer = ATTR_RE.sub(rep, outer)
+        blocks = []
+        for m in CONTBLOCK_RE.finditer(sec):
+            els = CONT_RE.findall(m.group(2))
+            if "".join(els) != m.group(2):
+                return None          # the block is not a plain sequence of <container> elements: do not classify
+            blocks.append(sorted(ATTR_RE.sub(lambda a: ('%s="#%s"' % (a.group(1), seen.get(a.group(2), "x"))) if a.group(1) in IDATTRS else a.group(0), e)
+                                 for e in els))
+        res.append((c_outer, blocks))
+    return res
+
+
 # ------------------------------------------------------------------------------------------------
 # T: containers whose iteration order is not determined by the program text
 # ------------------------------------------------------------------------------------------------
@@ -453,6 +485,9 @@ def gather_inputs(ctx, rng, res):
                 files[os.path.relpath(p, repo)] = open(p, encoding="utf-8", errors="replace").read()
     if files:
         inputs.append(dict(name="samples", files=files, args=["samples"], options=[]))
+    wc = os.path.join(core.VERIF, "corpus", "C29", "witness_containers.cpp")
+    if os.path.exists(wc):
+        inputs.append(dict(name="corpus/witness_containers.cpp", files={"witness_containers.cpp": open(wc).read()}, args=["witness_containers.cpp"], options=[]))
     wm = os.path.join(core.VERIF, "corpus", "C29", "witness_macro_decls.c")
     if os.path.exists(wm):
         inputs.append(dict(name="corpus/witness_macro_decls.c", files={"witness_macro_decls.c": open(wm).read()}, args=["witness_macro_decls.c"], options=[]))
@@ -576,6 +611,10 @@ def one_input(ctx, res, drv, inp, k, no_aslr_ok, stats, down_so=None):
                         kind = "idattr" if unlisted else "output"
                         if kind == "output" and canon_modulo_var_order(ref["dumps"][name]) == canon_modulo_var_order(text):
                             fd["note"] = "only the order of the <var> elements inside <variables> differs (F29a, repaired by e03b361, is back)"
+                        elif kind == "output":
+                            ma, mb = canon_modulo_container_order(ref["dumps"][name]), canon_modulo_container_order(text)
+                            if ma is not None and ma == mb:
+                                kind = "containers"
                         problems.append((kind,
                                          dict(input=inp["name"], command="dump", layout=lay["name"], dump=name, diff=fd,
                                               files=inp["files"] if len(json.dumps(inp["files"])) < 20000 else None, args=inp["args"], options=inp["options"])))
@@ -746,6 +785,10 @@ def run(ctx, res):
     res.oblig("machinery:dump-id-attributes", not idbad, "machinery",
               "" if not idbad else "dumps of two runs differ in an address-valued attribute the canonicaliser does not list: %s" % json.dumps(idbad[0][1]["diff"])[:600])
     for kind, p in problems:
+        if kind == "containers":
+            res.violation("the order of the <container> elements in the <containers> section of the dump differs between two runs of the same "
+                          "command (%s, layout %s, %s line %s)" % (p.get("input"), p.get("layout"), p.get("dump"), p.get("diff", {}).get("line")),
+                          p, concrete=True, key=K_CONTAINERS)
         if kind == "output":
             res.violation("the same command gives different output in a differently laid-out run (%s, %s, layout %s): line %s: %r vs %r" %
                           (p.get("input"), p.get("command"), p.get("layout"), p.get("diff", {}).get("line"), p.get("diff", {}).get("a"), p.get("diff", {}).get("b")),
